@@ -55,6 +55,8 @@ def observe(out):
                 obs["cells"].append((parts[2], txt, txt))
             if obs["dumps"]:
                 obs["dumps"][-1].append(obs["cells"][-1])
+        elif ln.startswith("ERROR "):
+            obs.setdefault("errors", []).append(ln[6:])
         elif ln.startswith("VAR "):
             obs.setdefault("vars", []).append(ln[4:])
         elif ln.startswith("IP "):
@@ -79,6 +81,10 @@ def contradicts(expect, obs):
             top = obs["cells"][0] if obs["cells"] else None
             if top is None or not any(top[0] == t and top[1] == x for t, x in e[1]):
                 why.append("top of stack %r not in %s" % (top, e[1]))
+        elif e[0] == "second_in":
+            c2 = obs["cells"][1] if len(obs["cells"]) > 1 else None
+            if c2 is None or not any(c2[0] == t and c2[1] == x for t, x in e[1]):
+                why.append("second stack cell %r not in %s" % (c2, e[1]))
         elif e[0] == "top_real":
             top = obs["cells"][0] if obs["cells"] else None
             if top is None or top[0] != "real" or top[1] != e[1]:
@@ -124,6 +130,21 @@ def contradicts(expect, obs):
         elif e[0] in ("stack_at_most", "depth_at_most"):
             if obs["depth"] is None or obs["depth"] > e[1]:
                 why.append("stack holds %r items, more than %d" % (obs["depth"], e[1]))
+        elif e[0] == "error_col":
+            errs = obs.get("errors", [])
+            m_ = re.search(r"\\n(-*)\^", errs[-1]) if errs else None
+            if m_ is None or len(m_.group(1)) != e[1]:
+                why.append("error location column %s, expected %d: %s" % (len(m_.group(1)) if m_ else None, e[1], errs[-1][-120:] if errs else None))
+        elif e[0] == "vars_equal":
+            vs = obs.get("vars", [])
+            a_, b_ = e[1]
+            if len(vs) <= max(a_, b_) or vs[a_] != vs[b_]:
+                why.append("variable observations %d and %d differ: %s" % (a_, b_, vs))
+        elif e[0] == "stacks_equal":
+            a_, b_ = e[1]
+            ds = obs.get("dumps", [])
+            if len(ds) <= max(a_, b_) or ds[a_] != ds[b_]:
+                why.append("stack dumps %d and %d differ" % (a_, b_))
         elif e[0] == "depth":
             if obs["depth"] != e[1]:
                 why.append("depth %r != %r" % (obs["depth"], e[1]))
